@@ -4,7 +4,7 @@ import sym
 
 CONFIGS_QUICK = ["F_all", "F_noenc", "F_def"]  # every configuration whose cfg-gated code the property depends on
 CONFIGS_THOROUGH = ["F_all", "F_noenc", "F_def"]
-TECHNIQUE = 'static analysis: per-refill error discipline on MIR paths (kind compared with Interrupted, retry reaches the same call with no side effect, error returned built from that error), propagation rule in the event loop'
+TECHNIQUE = 'static analysis: per-refill error discipline on MIR paths (kind compared with Interrupted, retry reaches the same call with no side effect, error returned built from that error), propagation rule in the event loop, otherwise-edge error branches'
 EXPLANATION = (
     "At every refill (`fill_buf`) call site of the buffered XmlSource helpers, sync and async: the Err edge "
     "must compare io::Error::kind() with ErrorKind::Interrupted, on equality reach the same fill_buf call again "
